@@ -1175,7 +1175,11 @@ def evaluate__xml_to_json(self: XPathFunction, context: ta.ContextType = None) \
                     if math.isnan(number) or math.isinf(number):
                         msg = f'invalid number value {value!r}'
                         raise self.error('FOJS0006', msg)
-                    chunks.append(str(number).rstrip('0').rstrip('.'))
+                    # Strip the trailing zeros of the mantissa, not the ones of the exponent
+                    mantissa, _, exponent = str(number).partition('e')
+                    if '.' in mantissa:
+                        mantissa = mantissa.rstrip('0').rstrip('.')
+                    chunks.append(f'{mantissa}e{exponent}' if exponent else mantissa)
 
             elif child.tag == STRING_TAG:
                 check_attributes('key', 'escaped-key', 'escaped')
@@ -1373,7 +1377,6 @@ def evaluate__json_to_xml(self: XPathFunction, context: ta.ContextType = None) \
             if not escape:
                 k = ''.join(x if is_xml_codepoint(ord(x))
                             else fallback(rf'\u{ord(x):04X}', context=context) for x in k)
-                k = k.replace('"', '&#34;')
                 attrib = {'key': k}
             else:
                 k = escape_string(k)
